@@ -40,7 +40,7 @@ def otlp_flush_budget(chk, P, key):
     def f():
         b = P.impl_method("emit_core::emitter::Emitter", "emit_otlp::client::OtlpInner", "blocking_flush")
         fl = [c for c in b.calls(normal_only=True) if c.callee.get("name") == "blocking_flush" and (c.callee.get("path") or "").startswith("emit_batcher::")]
-        if len(fl) < 2:
+        if len(fl) < 2 and not any(b.in_cycle(c.bb) for c in fl):
             raise mir.AnchorMissing("two or more signal flushes in OtlpInner::blocking_flush (found %d)" % len(fl))
 
         def readings(o, acc, d=0):
@@ -62,11 +62,11 @@ def otlp_flush_budget(chk, P, key):
         for A in fl:
             after = b.reachable_from(A.bb)
             for B in fl:
-                if B is A or B.bb not in after:
+                if B.bb not in after or (B is A and not b.in_cycle(A.bb)):
                     continue
                 acc = []
                 readings(b.origin(B.args[1]), acc)
-                if not any(r.bb in after and r.bb != A.bb for r in acc):
+                if not any(r.bb in after and (r.bb != A.bb or B is A) for r in acc):
                     return False, ("the flush at %s gets a timeout that does not account for the time the flush at %s took (%s): with a slow "
                                    "earlier signal the whole call outlasts its timeout" %
                                    (B.loc, A.loc, "no clock reading after it" if acc else "no clock reading at all")), [], B.loc
@@ -91,25 +91,39 @@ def end_to_end(chk, P, prefix="C07", only=None):
         fl = [c for c in b.calls(normal_only=True) if c.callee.get("name") == "blocking_flush"
               and (c.callee.get("path") or "").startswith("emit_batcher::")]
         flushed = set()
+        chain_calls = set()
         for c in fl:
             o = b.origin(c.args[0])
-            def walk(o, d=0):
-                if d > 20:
+            def walk(o, d=0, x=b):
+                if d > 24:
                     return
-                if o[0] == "field":
+                k = o[0]
+                if k == "field":
                     r, names = mir.o_field_path(o)
-                    if r[0] == "param" and r[1] == 1 and names:
+                    if r[0] == "param" and r[1] == 1 and names and not x.is_closure:
                         flushed.add(names[0])
-                if o[0] in ("field", "downcast", "index", "cast"):
-                    walk(o[1], d + 1)
-                elif o[0] == "call":
+                if k in ("field", "downcast", "index", "cast", "ref", "deref", "copy"):
+                    walk(o[1], d + 1, x)
+                elif k == "call":
+                    chain_calls.add(o[1].callee.get("name"))
                     for a in o[1].args:
-                        walk(b.origin(a), d + 1)
-                elif o[0] == "phi":
-                    for x in o[1]:
-                        walk(x, d + 1)
+                        walk(o[1].body.origin(a), d + 1, o[1].body)
+                elif k == "phi":
+                    for y in o[1]:
+                        walk(y, d + 1, x)
+                elif k == "agg":
+                    for y in o[2]:
+                        walk(y, d + 1, x)
+                elif k == "capture":
+                    par = P.bodies.get(x.parent_key)
+                    if par is not None:
+                        walk(P.capture_origin(x, o), d + 1, par)
             walk(o)
         missing = [f for f in sig_fields if f not in flushed]
+        # when the signals are flushed from a loop over a collection of them, nothing may drop or stop short of an element
+        cut = chain_calls & {"take", "skip", "step_by", "map_while", "take_while", "skip_while", "filter", "nth", "last", "find", "rev_take"}
+        if any(b.in_cycle(c.bb) for c in fl) and cut:
+            return False, "the signals are flushed from an iterator that goes through %s: a configured signal can be left out" % sorted(cut), [], b.span
         if missing:
             return False, ("OtlpInner::blocking_flush does not flush the signal(s) %s: flush would report success while "
                            "their requests are still queued" % missing), [], b.span
